@@ -198,5 +198,6 @@ def run(prog, rep, tier, cfg):
     c15.early_termination_drain(prog, rep, X, prefix='cron:')
     # ---- error discipline: no Result produced in these crates is silently discarded
     X.no_dropped_results('K14', 'results-not-discarded', ['fil_actor_cron', 'fil_actor_power', 'fil_actor_miner', 'fil_actor_market', 'fil_actor_reward'], 'no Result of a call is discarded')
+    X.tolerated_failures('K15', 'tolerated-failures', ['fil_actor_cron', 'fil_actor_power', 'fil_actor_miner', 'fil_actor_market', 'fil_actor_reward'], 'tolerated failures are the reviewed ones')
 
 
